@@ -25,6 +25,10 @@ CHECKS = {
                 text="Units: for every member and alias of DistanceUnit and both readers, z3 shows that for ALL real coordinates the value returned is within 1e-4 relative of the coordinate times an independent Angstrom-per-unit table (unsat), i.e. physical distances are unchanged; models are replayed through the real text parsers. Round trip: every element in every geometry class, 0-3 atoms, 1-3 frames and a coordinate menu read back with count, order, elements and coordinates to 1e-6.",
                 note="Reals, not floats, in the unit proof (factor rounding sits inside the tolerance); the text round trip is selector-bound; the parsers are replaced by a one-block stub in the SR part only.",
                 design="3/C08"),
+    "C09": dict(engine="XH", technique="CrossHair symbolic execution of ml.load/loads/load_all/loads_all/dump/dumps with function, format, output type, name, target kind and mode as symbolic selectors on an in-memory file model; z3 decides each path [selector-bound]",
+                text="Every cell of the matrix {load, loads, load_all, loads_all} x {xyz, mol2, cdxml, pdb, nonsense, XYZ} x {'molecule','ensemble', Molecule, Structure, ConformerEnsemble} x name {None,'zz',''} x explicit/suffix format and {dump, dumps} x formats x {Molecule, Structure, ConformerEnsemble} x {caller's stream, path by suffix, path + format} x {a, w} is compared with the class-method result on the same input: type, list-ness, names incl. override, atoms, coordinates, text written, caller's stream left open, own streams closed, ValueError for unsupported formats.",
+                note="Selector-bound: the solver enumerates configuration cells; inputs are two small generated files and one bundled CDXML file; openbabel branches are outside (not installed). Replay uses real temporary files.",
+                design="3/C09"),
     "C10": dict(engine="XH", technique="CrossHair symbolic execution of the real mol2/xyz readers with the damage position (byte offset, line, token) and kind as symbolic selectors; z3 decides each path [selector-bound]",
                 text="For the generated 2-molecule mol2 and 2-frame xyz texts: every truncation offset, every single line deletion/duplication and every single token corruption (integer +-1, numeric -> 'x', token dropped) leads to an exception or to molecules that have exactly the atom/bond counts of their own header and the content of the corresponding undamaged molecule; the readers terminate (line budget). Exhaustive over single damages of these two texts.",
                 note="Selector-bound (the solver enumerates positions; a symbolic offset into concrete text is realised by CrossHair). Cuts inside the last numeric token of the file are undetectable for any reader and only checked for counts. Multiple simultaneous damages and other files are outside the bound.",
